@@ -194,6 +194,107 @@ theorem range_excludes {nb : BitVec 8} (hl : LayoutOk nb) (nal : Bool) (epoch b 
     · right; omega
   · left; omega
 
+/-- both endpoints of the computed interval are themselves non-negative ids, and the interval is non-empty whenever
+    the first endpoint's second is not after the last one's: `0 ≤ min ≤ max` (so `range_exact` applies to them) -/
+theorem range_endpoints_ordered {nb : BitVec 8} (hl : LayoutOk nb) (epoch b e : BitVec 64)
+    (hb : ((b * 1000#64) - epoch).toNat < 2 ^ tsWidth nb) (he : ((e * 1000#64) - epoch).toNat < 2 ^ tsWidth nb)
+    (hbe : ((b * 1000#64) - epoch).toNat ≤ ((e * 1000#64) - epoch).toNat) :
+    0 ≤ (timeBetweenID nb epoch b e).1.toInt ∧
+      (timeBetweenID nb epoch b e).1.toInt ≤ (timeBetweenID nb epoch b e).2.toInt := by
+  have hW : 2 ^ tsWidth nb * 2 ^ tsShift nb = 2 ^ 63 := by
+    rcases hl with rfl | rfl | rfl <;> decide
+  have hp : 0 < 2 ^ tsShift nb := Nat.pos_of_ne_zero (by simp)
+  have hmin := shl_toNat hl hb
+  have hmax := shl_or_mask_toNat hl he
+  have hminlt : ((b * 1000#64 - epoch) <<< (nb + 12#8).toNat).toNat < 2 ^ 63 := by
+    rw [hmin, ← hW]; exact Nat.mul_lt_mul_of_pos_right hb hp
+  have hmaxlt : (((e * 1000#64 - epoch) <<< (nb + 12#8).toNat) ||| lowMask nb).toNat < 2 ^ 63 := by
+    rw [hmax, ← hW]
+    have : ((e * 1000#64 - epoch).toNat + 1) * 2 ^ tsShift nb ≤ 2 ^ tsWidth nb * 2 ^ tsShift nb :=
+      Nat.mul_le_mul_right _ he
+    rw [Nat.add_mul] at this; omega
+  unfold timeBetweenID
+  simp only
+  rw [toInt_eq_toNat_of_lt hminlt, toInt_eq_toNat_of_lt hmaxlt, hmin, hmax]
+  have : (b * 1000#64 - epoch).toNat * 2 ^ tsShift nb ≤ (e * 1000#64 - epoch).toNat * 2 ^ tsShift nb :=
+    Nat.mul_le_mul_right _ hbe
+  omega
+
+/-- **the interval is tight**: its lower end is the id with timestamp `bOff` and every remaining bit clear, its upper
+    end the id with timestamp `eOff` and every remaining bit set — both are attained, the interval cannot be narrowed -/
+theorem range_endpoints_fields {nb : BitVec 8} (hl : LayoutOk nb) (nal : Bool) (epoch b e : BitVec 64)
+    (hb : ((b * 1000#64) - epoch).toNat < 2 ^ tsWidth nb) (he : ((e * 1000#64) - epoch).toNat < 2 ^ tsWidth nb) :
+    (idFields (timeBetweenID nb epoch b e).1 nb nal).1.toInt = ((b * 1000#64) - epoch).toInt ∧
+      (idFields (timeBetweenID nb epoch b e).2 nb nal).1.toInt = ((e * 1000#64) - epoch).toInt ∧
+      (timeBetweenID nb epoch b e).1.toNat % 2 ^ tsShift nb = 0 ∧
+      (timeBetweenID nb epoch b e).2.toNat % 2 ^ tsShift nb = 2 ^ tsShift nb - 1 := by
+  have hW : 2 ^ tsWidth nb * 2 ^ tsShift nb = 2 ^ 63 := by
+    rcases hl with rfl | rfl | rfl <;> decide
+  have hWle : 2 ^ tsWidth nb ≤ 2 ^ 43 := by
+    rcases hl with rfl | rfl | rfl <;> decide
+  have hp : 0 < 2 ^ tsShift nb := Nat.pos_of_ne_zero (by simp)
+  have hmin := shl_toNat hl hb
+  have hmax := shl_or_mask_toNat hl he
+  have hminlt : ((b * 1000#64 - epoch) <<< (nb + 12#8).toNat).toNat < 2 ^ 63 := by
+    rw [hmin, ← hW]; exact Nat.mul_lt_mul_of_pos_right hb hp
+  have hmaxlt : (((e * 1000#64 - epoch) <<< (nb + 12#8).toNat) ||| lowMask nb).toNat < 2 ^ 63 := by
+    rw [hmax, ← hW]
+    have : ((e * 1000#64 - epoch).toNat + 1) * 2 ^ tsShift nb ≤ 2 ^ tsWidth nb * 2 ^ tsShift nb :=
+      Nat.mul_le_mul_right _ he
+    rw [Nat.add_mul] at this; omega
+  unfold timeBetweenID
+  simp only
+  rw [ts_toInt hl nal hminlt, ts_toInt hl nal hmaxlt,
+    toInt_eq_toNat_of_lt (x := b * 1000#64 - epoch) (by omega), toInt_eq_toNat_of_lt (x := e * 1000#64 - epoch) (by omega),
+    hmin, hmax]
+  refine ⟨?_, ?_, ?_, ?_⟩
+  · rw [Nat.mul_div_cancel _ hp]
+  · congr 1
+    rw [Nat.mul_comm, Nat.mul_add_div hp, Nat.div_eq_of_lt (by omega)]; omega
+  · exact Nat.mul_mod_left _ _
+  · rw [Nat.mul_comm, Nat.mul_add_mod, Nat.mod_eq_of_lt (by omega)]
+
+/-- **monotone in the time interval**: widening the time interval (earlier first second, later last second) widens the
+    id interval — no id is lost by asking for more time -/
+theorem range_monotone {nb : BitVec 8} (hl : LayoutOk nb) (nal : Bool) (epoch b e b' e' id : BitVec 64)
+    (hb : ((b * 1000#64) - epoch).toNat < 2 ^ tsWidth nb) (he : ((e * 1000#64) - epoch).toNat < 2 ^ tsWidth nb)
+    (hb' : ((b' * 1000#64) - epoch).toNat < 2 ^ tsWidth nb) (he' : ((e' * 1000#64) - epoch).toNat < 2 ^ tsWidth nb)
+    (hbb : ((b' * 1000#64) - epoch).toInt ≤ ((b * 1000#64) - epoch).toInt)
+    (hee : ((e * 1000#64) - epoch).toInt ≤ ((e' * 1000#64) - epoch).toInt)
+    (hid : 0 ≤ id.toInt)
+    (h : (timeBetweenID nb epoch b e).1.toInt ≤ id.toInt ∧ id.toInt ≤ (timeBetweenID nb epoch b e).2.toInt) :
+    (timeBetweenID nb epoch b' e').1.toInt ≤ id.toInt ∧ id.toInt ≤ (timeBetweenID nb epoch b' e').2.toInt := by
+  have h1 := (range_exact hl nal epoch b e id hb he hid).1 h
+  exact (range_exact hl nal epoch b' e' id hb' he' hid).2 ⟨by omega, by omega⟩
+
+/-- **intervals compose**: an id lies in the id intervals of two time intervals iff it lies in the id interval of
+    their intersection (first second = the later of the two first seconds, last second = the earlier of the two last) -/
+theorem range_inter {nb : BitVec 8} (hl : LayoutOk nb) (nal : Bool) (epoch b e b' e' id : BitVec 64)
+    (hb : ((b * 1000#64) - epoch).toNat < 2 ^ tsWidth nb) (he : ((e * 1000#64) - epoch).toNat < 2 ^ tsWidth nb)
+    (hb' : ((b' * 1000#64) - epoch).toNat < 2 ^ tsWidth nb) (he' : ((e' * 1000#64) - epoch).toNat < 2 ^ tsWidth nb)
+    (hbb : ((b * 1000#64) - epoch).toInt ≤ ((b' * 1000#64) - epoch).toInt)
+    (hee : ((e * 1000#64) - epoch).toInt ≤ ((e' * 1000#64) - epoch).toInt)
+    (hid : 0 ≤ id.toInt) :
+    (((timeBetweenID nb epoch b e).1.toInt ≤ id.toInt ∧ id.toInt ≤ (timeBetweenID nb epoch b e).2.toInt) ∧
+      ((timeBetweenID nb epoch b' e').1.toInt ≤ id.toInt ∧ id.toInt ≤ (timeBetweenID nb epoch b' e').2.toInt)) ↔
+    ((timeBetweenID nb epoch b' e).1.toInt ≤ id.toInt ∧ id.toInt ≤ (timeBetweenID nb epoch b' e).2.toInt) := by
+  rw [range_exact hl nal epoch b e id hb he hid, range_exact hl nal epoch b' e' id hb' he' hid,
+    range_exact hl nal epoch b' e id hb' he hid]
+  omega
+
+/-- a single-instant range (`TimeIDRange`) holds exactly the ids stamped with that second's millisecond offset -/
+theorem time_id_range_exact {nb : BitVec 8} (hl : LayoutOk nb) (nal : Bool) (epoch sec id : BitVec 64)
+    (hs : ((sec * 1000#64) - epoch).toNat < 2 ^ tsWidth nb) (hid : 0 ≤ id.toInt) :
+    ((timeIDRange nb epoch sec).1.toInt ≤ id.toInt ∧ id.toInt ≤ (timeIDRange nb epoch sec).2.toInt) ↔
+      (idFields id nb nal).1.toInt = ((sec * 1000#64) - epoch).toInt := by
+  rw [time_id_range_eq, range_exact hl nal epoch sec sec id hs hs hid]
+  omega
+
+/-- non-vacuity: default layout (10 node bits), epoch 2021-01-01 (ms), the range of 2021-01-01 00:00:10 UTC … :20 -/
+example :
+    ((1609459210#64 * 1000#64) - 1609459200000#64).toNat < 2 ^ tsWidth 10#8 ∧
+    (timeBetweenID 10#8 1609459200000#64 1609459210#64 1609459220#64) = (41943040000#64, 83890274303#64) := by decide
+
 /-! ### the 24-character date form -/
 
 /-- **round trip through the date form**: for the millisecond accessor, over any calendar that is lawful on a domain
